@@ -185,6 +185,6 @@ void change_of_basis_matrix_three(ibz_mat_2x2_t *mat,
 // function to sample a random left O0-ideal of given norm
 // the boolean is_prime indicates if the intput norm is known to be prime
 // if it is the case, then the algorithm is significantly faster
-void sampling_random_ideal_O0(quat_left_ideal_t *lideal, ibz_t *norm, int is_prime);
+int sampling_random_ideal_O0(quat_left_ideal_t *lideal, ibz_t *norm, int is_prime);
 
 #endif
